@@ -272,6 +272,60 @@ func scShortenUnstakingTime(w *sim.World) {
 	w.Run()
 }
 
+// scAllMissUntilJailed: every validator of Tendermint's set misses every vote from the same block on, so all of them
+// cross the downtime threshold in the same BeginBlock: nobody staked and unjailed is left.
+func scAllMissUntilJailed(w *sim.World) {
+	cp := sim.ParamsOf(w.View())
+	if !w.Block() {
+		return
+	}
+	for a := range w.View().Vals {
+		w.MissOverride[a] = 100
+	}
+	w.AnchorMayMiss = true
+	for i := int64(0); i < 2*cp.Window+10 && !w.Env.Dead; i++ {
+		w.Step(1)
+		if !w.Block() {
+			return
+		}
+	}
+	w.Run()
+}
+
+// scWhaleStakeUnstake: an account that owns more than 2^63 tokens stakes an amount around 2^63, begins unstaking and
+// the unstaking period passes.
+func scWhaleStakeUnstake(w *sim.World) {
+	a := w.WhaleActor
+	if a == nil {
+		w.Run()
+		return
+	}
+	cp := sim.ParamsOf(w.View())
+	amts := []string{"4611686018427387904", "9223372036854775807", "9223372036854775808", "9223372036854775809", "18446744073709551616", "9223372036854775806999999"}
+	amt, _ := sdk.NewIntFromString(amts[int(w.R.Intn(len(amts)))])
+	w.Reserved[a.AddrHex()] = true
+	defer delete(w.Reserved, a.AddrHex())
+	w.Force("whale-stake", func() *sim.TxSpec { return w.Honest(a, posTypes.MsgStake{PubKey: a.Pub, Value: amt}) })
+	if !w.Block() {
+		return
+	}
+	w.Step(5)
+	w.Force("whale-begin-unstake", unstakeTx(w, a))
+	if !w.Block() {
+		return
+	}
+	w.Step(int64(cp.Unstaking/time.Second) + 1)
+	if !w.Block() {
+		return
+	}
+	w.Step(5)
+	if !w.Block() {
+		return
+	}
+	delete(w.Reserved, a.AddrHex())
+	w.Run()
+}
+
 // scenarioFor returns a deterministic script for some case indices (coverage guarantees) together with the
 // parameter constraints the script needs, nil otherwise.
 func scenarioFor(prop string, i int, r *sim.Rand) (func(w *sim.World), func(p *sim.Profile)) {
@@ -289,6 +343,28 @@ func scenarioFor(prop string, i int, r *sim.Rand) (func(w *sim.World), func(p *s
 				p.Pos.MinSignedPerWindow = sdk.NewDecWithPrec(5, 1)
 				p.Pos.SlashFractionDowntime = []sdk.Dec{sdk.NewDecWithPrec(1, 2), sdk.NewDecWithPrec(5, 1), sdk.NewDecWithPrec(1, 1)}[i/8%3]
 				p.Pos.DowntimeJailDuration = time.Duration([]int64{60, 120, 600}[i/8%3]) * time.Second
+			}
+		case 6:
+			if prop == "C06" {
+				return scWhaleStakeUnstake, func(p *sim.Profile) {
+					p.Whale = true
+					p.CustomPos = true
+					if p.Pos.SignedBlocksWindow == 0 {
+						p.Pos = sim.SmallWindowPos(r)
+					}
+					p.Pos.UnstakingTime = 10 * time.Minute
+				}
+			}
+			if prop == "C05" && i%16 == 6 {
+				return scAllMissUntilJailed, func(p *sim.Profile) {
+					p.CustomPos = true
+					if p.Pos.SignedBlocksWindow == 0 {
+						p.Pos = sim.SmallWindowPos(r)
+					}
+					p.Pos.MinSignedPerWindow = sdk.NewDecWithPrec(5, 1)
+					p.Pos.MaxValidators = 100000
+					p.EvidencePct, p.BurnPct = 0, 0
+				}
 			}
 		case 7:
 			if prop != "C06" {
